@@ -108,9 +108,18 @@ func observe(m *quickfix.Message, group []interface{}, hasGroup bool) tr.M {
 	if why != "" {
 		obs["why"] = why
 	}
+	// copy into a fresh message and into one that already carries fields in every section
 	c := quickfix.NewMessage()
 	m.CopyInto(c)
-	obs["copySame"] = c.String() == string(b)
+	d := quickfix.NewMessage()
+	d.Header.SetString(8, "FIX.4.0")
+	d.Header.SetString(35, "0")
+	d.Header.SetString(57, "stale")
+	d.Body.SetString(58, "stale")
+	d.Body.SetString(1, "stale")
+	d.Trailer.SetString(89, "stale")
+	m.CopyInto(d)
+	obs["copySame"] = c.String() == string(b) && d.String() == string(b)
 	return obs
 }
 
